@@ -21,6 +21,7 @@ type thread struct {
 	where   string
 	daemon  bool
 	vc      vclock
+	stack   []*ssa.Function
 }
 
 type selCase struct {
@@ -30,12 +31,12 @@ type selCase struct {
 }
 
 type waiter struct {
-	th      *thread
-	cases   []selCase
-	done    bool
-	chosen  int
-	recvVal value
-	recvOk  bool
+	th       *thread
+	cases    []selCase
+	done     bool
+	chosen   int
+	recvVal  value
+	recvOk   bool
 	panicMsg string
 }
 
@@ -110,6 +111,9 @@ func (e *Engine) block(pred func() bool, where string) {
 	for !pred() {
 		next := e.pickRunnable()
 		if next == nil {
+			if e.fireTimer() {
+				continue
+			}
 			e.deadlock()
 		}
 		e.transfer(next)
@@ -189,6 +193,9 @@ func (e *Engine) spawn(fv value, args []value) {
 			t.exited <- struct{}{}
 			// normal exit: hand the baton on
 			next := e.pickRunnableAny(t)
+			for next == nil && e.fireTimerFrom(t) {
+				next = e.pickRunnableAny(t)
+			}
 			if next == nil {
 				pe := pathEnd{"deadlock", "goroutine exited and nobody can run"}
 				e.endReq = &pe
@@ -311,7 +318,10 @@ func (e *Engine) doSend(ch *chanObj, v value) {
 	panic("doSend not ready")
 }
 
-func (e *Engine) rtPanicT(msg string) { e.endFromThread(pathEnd{"panic", msg}) }
+func (e *Engine) rtPanicT(msg string) {
+	e.lastPanicWhere = e.whereStr() + " <- " + e.stackStr()
+	e.endFromThread(pathEnd{"panic", msg})
+}
 
 func (e *Engine) chanSend(ch *chanObj, v value) {
 	e.yield()
@@ -520,3 +530,6 @@ func (e *Engine) setupSyncExt() {
 		return nil
 	}
 }
+
+// fireTimerFrom fires a timer on behalf of an exiting thread.
+func (e *Engine) fireTimerFrom(t *thread) bool { return e.fireTimer() }
